@@ -297,6 +297,9 @@ def build_for(pid, tier):
                         max_paths=20000))
     from . import miner_cron
     O += miner_cron.build_for(pid, tier)
+    if pid in ('C01', 'C03'):
+        from . import miner_activate
+        O += miner_activate.build_for(pid, tier)
     if pid in ('C15', 'C01', 'C03'):
         D = miner_cron.build_dispute(pid, tier)
         O += D if tier != 'quick' else D[:1]
